@@ -59,7 +59,11 @@ Inductive op :=
 | SIxor (vs : list Z) | SSymDiff (vs : list Z)   (* s ^= set(vs) / s.symmetric_difference_update(vs); the members that are
                                               not in s come first, in the order the validator is called on them *)
 | SetY (v : Z) | ReadY
-| SetAd2 (chain : option nat) (v : Z).     (* adapt="default": None = no adaptation path, the default (None) is stored *)
+| SetAd2 (chain : option nat) (v : Z)      (* adapt="default": None = no adaptation path, the default (None) is stored *)
+| SetXQ (v : Z)                            (* trait_setq(x=v): validated assignment with notifications switched off *)
+| Opaque (tag : nat).                      (* an operation outside the model (observer registration with a user filter,
+                                              add_trait, ...): no effect on the modelled fields; only the law on the
+                                              implementation's observations (faulted object vs twin) speaks about it *)
 
 (* handler identities *)
 Definition H_x_static := 0%nat.     (* _x_changed *)
@@ -296,6 +300,13 @@ Section WithCallbacks.
                             end
                   end
         end
+    | SetXQ v =>                                  (* has_traits.py trait_set(trait_change_notify=False): no notifier runs,
+                                                    so handlers are silent and the observed cache is NOT dropped *)
+        match call_vld pl 0 v with
+        | RRaise e => raise e s0
+        | ROk v' => done (set_x v' s0) []
+        end
+    | Opaque _ => done s0 []
     | SetAd2 chain v =>
         match chain with
         | None => done (set_ad2 (-1) s0) []
